@@ -109,6 +109,9 @@ def reject_candidates(t):
             ("d41d8cd9 8f00b204 e9800998 ecf8427e", None, None), (None, "da39a3ee5e6b4b0d3255bfef95601890afd80709 ", None),
             (None, None, "e3b0c44298fc1c14\t9afbf4c8996fb92427ae41e4649b934ca495991b7852b855"),
             {"md5": "d4 1d 8c d9 8f 00 b2 04 e9 80 09 98 ec f8 42 7e"},
+            # every component, in the mapping form too
+            {"sha256": "zz" * 32}, {"sha256": "0" * 63}, {"sha256": "0" * 66}, {"sha256": "not hex"}, {"sha1": "abc"},
+            {"md5": "00" * 16, "sha256": "g" * 64}, {"sha1": "0" * 39, "sha256": "0" * 64},
         ])
     if t in ("net.ipaddress", "net.IPAddress"):
         return st.sampled_from(["999.1.1.1", "not an ip", "1.2.3", "::g", "", "10.0.0.0/8", "1.2.3.4.5", -1, 2**128]
@@ -116,7 +119,8 @@ def reject_candidates(t):
     if t in ("net.ipnetwork", "net.IPNetwork"):
         return st.sampled_from(["10.0.0.1/8", "x/33", "10.0.0.0/33", "nonsense", "::1/129", "1.2.3.4/-1"] + NOT_IP_NUMBERS)
     if t == "bytes":
-        return st.sampled_from(["text", 5, M("list", ["a"]), 1.5, True])
+        return st.sampled_from(["text", 5, M("list", ["a"]), 1.5, True, M("bytearray", b"abc"), M("bytearray", b""),
+                                M("memoryview", b"abc"), M("array", b"ab")])
     return None
 
 
@@ -263,6 +267,14 @@ def build_candidate(v):
             return tuple(build_candidate(x) for x in v.p)
         if v.kind == "pyip":
             return _ip.ip_address(v.p)
+        if v.kind == "bytearray":
+            return bytearray(v.p)
+        if v.kind == "memoryview":
+            return memoryview(v.p)
+        if v.kind == "array":
+            import array
+
+            return array.array("b", v.p)
         if v.kind == "num":
             import decimal
             import fractions
